@@ -614,3 +614,51 @@ Fixpoint war_run (st : headers * wauth) (ops : list waop) : list (list out) :=
   | [] => []
   | o :: r => let '(st', rs) := war_step st o in (out_of_res rs :: war_obs st') :: war_run st' r
   end.
+
+(* www_authenticate = [a; b; ...]: the first item replaces the header, the others are added as further lines *)
+Definition wa_assign_list (h : headers) (ws : list wauth) : hstat :=
+  match ws with
+  | [] => (hd_del_key h WWW_AUTH, None)
+  | w :: r => hseq (hd_set h WWW_AUTH (VStr (wa_to_header w)))
+                   (fun h1 => hd_add_all h1 WWW_AUTH (map (fun x => VStr (wa_to_header x)) r))
+  end.
+
+(* ================================================================== date-valued header_property pairs *)
+(* date / expires / last_modified (and retry_after given a datetime): dump = http.http_date, load = http.parse_date.
+   Both are parameters (email.utils / datetime are not modelled); the contract is stated where they are used. *)
+Section DateProps.
+  Variable instant : Type.
+  Variable http_date : instant -> str.
+  Variable parse_date : str -> option instant.
+  Definition date_prop_set (h : headers) (name : str) (t : instant) : hstat := hd_set h name (VStr (http_date t)).
+  Definition date_prop_get (h : headers) (name : str) : option instant :=
+    match hd_get_key h name with None => None | Some s => parse_date s end.
+End DateProps.
+
+(* ================================================================== mimetype_params *)
+Definition CONTENT_TYPE : str := [67; 111; 110; 116; 101; 110; 116; 45; 84; 121; 112; 101].
+(* Response.mimetype: the text before the first semicolon, stripped; None when the header is absent or empty *)
+Definition mimetype_of (h : headers) : option str :=
+  match hd_get_key h CONTENT_TYPE with
+  | None | Some [] => None
+  | Some ct => Some (strip uni_ws (hd [] (split_on SEMI ct)))
+  end.
+Definition options_item (kv : str * str) : str :=
+  if ends_with_star (fst kv) then fst kv ++ [EQ] ++ snd kv else fst kv ++ [EQ] ++ quote_header_value true (snd kv).
+(* http.dump_options_header *)
+Definition dump_options (mt : option str) (d : sdict) : str :=
+  join [SEMI; SP] ((match mt with Some m => [m] | None => [] end) ++ map options_item d).
+
+(* an operation on the (possibly long-held) mimetype_params view: the callback writes the parameters next to the
+   media type the response has at that moment *)
+Definition mp_step (st : headers * sdict) (o : dop str) : (headers * sdict) * res out :=
+  let '(h, d) := st in
+  let '(d', r, fired) := d_step OStr d o in
+  if fired then
+    match hd_set h CONTENT_TYPE (VStr (dump_options (mimetype_of h) d')) with
+    | (h', None) => ((h', d'), r)
+    | (h', Some e) => ((h', d'), Err e)
+    end
+  else ((h, d'), r).
+Definition mp_obs (st : headers * sdict) : list out :=
+  let '(h, d) := st in [header_text h CONTENT_TYPE; OPairs h; OPairs d; out_os (mimetype_of h)].
